@@ -129,6 +129,23 @@ Definition dep_b (t u : target) : bool :=
   negb (str_eqb (tpath u) (tpath t)) &&
   (inside (tpath t) (tpath u) || existsb (fun m => inside m (tpath u)) (uses t)).
 
+(* the Props used in the theorems *)
+Definition wf_config (cfg : config) : Prop :=
+  NoDup (map tpath cfg) /\
+  forall t, In t cfg -> wf_path (tpath t) /\ (forall u, In u (uses t) -> wf_path u) /\
+                        (forall i, In i (ignores t) -> wf_path i).
+
+(* C10: target t depends on target u *)
+Definition dep (t u : target) : Prop :=
+  tpath u <> tpath t /\
+  (inside (tpath t) (tpath u) = true \/ exists m, In m (uses t) /\ inside m (tpath u) = true).
+
+(* target render: the dot file as a list of abstract lines *)
+Inductive dot_line := NodeLine (n : nat) (label : str) | EdgeLine (i j : nat).
+Definition render_dot (labels : list str) (a : list (list nat)) : list dot_line :=
+  map (fun '(n, l) => NodeLine n l) (combine (seq 0 (length a)) labels) ++
+  flat_map (fun '(i, row) => map (EdgeLine i) row) (combine (seq 0 (length a)) a).
+
 (* decidable well-formedness of paths, for the harness (wf_path is the Prop used in theorems) *)
 Definition wf_path_b (s : str) : bool :=
   match s with [] => false | _ => negb (existsb (fun c => match c with [] => true | _ => false end) (comps s)) end.
